@@ -121,10 +121,10 @@ def cons (j : Json) : Except String Json := do
   pure (Json.mkObj [("ghost", jQs ((allIdx fshape).map a)), ("integral", jQ v)])
 
 /-- The term the run theorems of `Props/C05d.lean` are about, evaluated at `Rat`:
-{"cls","shape","lo","dx","per":[bool..],"scheme":"euler"|"rk4","eq":"diffusion"|"cahn-hilliard","coef": D | γ,
+{"cls","shape","lo","dx","per":[bool..],"scheme":"euler"|"rk4"|"implicit"|"crank-nicolson" (+ "maxiter","maxerror","alpha"),"eq":"diffusion"|"cahn-hilliard","coef": D | γ,
  "dt","ts","te","data":[values of the valid cells, row-major]}
- -> {"state": `state.data` after `cellRuns (validCells shape) scheme (consRate …) dt te (dt/10^6) 16 ts data 0` (the controller loop
-     around `cellRun`), "t": final time, "steps": total number of steps, "mass0"/"mass1": `cellMass` (integral without the factor pi) before / after} -/
+ -> {"state": `state.data` after `solverRuns (validCells shape) solver (consRate …) dt te (dt/10^6) 16 ts data 0` (the controller loop
+     around `solverRun`), "t": final time, "steps": total number of steps, "mass0"/"mass1": `cellMass` (integral without the factor pi) before / after} -/
 def run (j : Json) : Except String Json := do
   let clsS ← fldS j "cls"
   let shape ← fldNs j "shape"
@@ -144,9 +144,14 @@ def run (j : Json) : Except String Json := do
     | "sph" => pure GridCls.sph
     | "cyl" => pure GridCls.cyl
     | _ => throw s!"grid class {clsS}")
-  let sch ← (match schS with
-    | "euler" => pure RunScheme.euler
-    | "rk4" => pure RunScheme.rk4
+  let maxiter := (match fldOpt j "maxiter" with | some v => (getN v).toOption.getD 100 | none => 100)
+  let maxerror ← (match fldOpt j "maxerror" with | some v => getQ v | none => pure (1 / 10000 : Rat))
+  let alpha ← (match fldOpt j "alpha" with | some v => getQ v | none => pure (0 : Rat))
+  let sol ← (match schS with
+    | "euler" => pure (RunSolver.explicit RunScheme.euler)
+    | "rk4" => pure (RunSolver.explicit RunScheme.rk4)
+    | "implicit" => pure (RunSolver.implicit maxiter maxerror)
+    | "crank-nicolson" => pure (RunSolver.crankNicolson alpha maxiter maxerror)
     | _ => throw s!"scheme {schS}")
   let l0 : Rat := lo.getD 0 0
   let mu ← (match eqS with
@@ -155,7 +160,7 @@ def run (j : Json) : Except String Json := do
     | _ => throw s!"equation {eqS}")
   let cells := validCells shape
   if data.length ≠ cells.length then throw "data does not match the shape"
-  match cellRuns cells sch (consRate cls shape l0 dx per mu) dt te (dt / 1000000) 16 ts data 0 with
+  match solverRuns cells sol (consRate cls shape l0 dx per mu) dt te (dt / 1000000) 16 ts data 0 with
   | none => throw "step failed"
   | some (s', tr, steps) =>
     pure (Json.mkObj [("state", jQs s'), ("t", jQ tr), ("steps", Json.num steps),
